@@ -172,11 +172,19 @@ class Gen:
         self.nmerged += 1
         out = f'm{self.nmerged}.aeic-store'
         mop = {'out': out, 'inputs': order}
-        if order == names and rng.random() < 0.5:
+        if order == names and rng.random() < 0.5 and not self.groups[gid].get('subdirs'):
             b = self.groups[gid].get('base_index', 0)
             mop['pattern'] = {'pattern': f'g{gid}_{{index}}.nc', 'lo': b, 'hi': b + len(names) - 1}
         if what == 'refused':
-            mop.pop('pattern', None)
+            if kind == 'pattern_missing_index':
+                if 'pattern' not in mop:
+                    if order == names and not self.groups[gid].get('subdirs'):
+                        b = self.groups[gid].get('base_index', 0)
+                        mop['pattern'] = {'pattern': f'g{gid}_{{index}}.nc', 'lo': b, 'hi': b + len(names) - 1}
+                    else:
+                        kind = 'missing_input'
+            if kind != 'pattern_missing_index':
+                mop.pop('pattern', None)
             mop.update(op='merge_refused', kind=kind)
             if extra:
                 # order-sensitive refusal rules: the odd one out goes first or last most of the time
@@ -217,14 +225,15 @@ class Gen:
         g = self.groups[gid]
         sid = self.new_sid()
         i = g.get('base_index', 0) + len(g['files'])
-        name = f'g{gid}_{i}.nc'
+        sub = f'd{len(g["files"]) % 2}/' if g.get('subdirs') else ''
+        name = f'{sub}g{gid}_{i}.nc'
         g['files'].append(name)
         fs = list(g['fs'])
         assoc = []
         if g['n_assoc']:
             moved = fs[-g['n_assoc']:]
             for j, x in enumerate(moved):
-                assoc.append([f'g{gid}_{i}.a{j}.nc', [x]])
+                assoc.append([f'{sub}g{gid}_{i}.a{j}.nc', [x]])
             base_fs = fs[: len(fs) - g['n_assoc']]
         else:
             base_fs = fs
@@ -260,7 +269,9 @@ class Gen:
             n_assoc = rng.randint(1, min(2, len(fs)))
         # species universe for the group (decided by the first trajectory of each file)
         g = {'fs': fs, 'ident': ident, 'n_assoc': n_assoc, 'files': [], 'layout': layout,
-             'species': self._species_universe(), 'base_index': rng.choice([0, 0, 0, 8, 9, 98])}
+             'species': self._species_universe(), 'base_index': rng.choice([0, 0, 0, 8, 9, 98]),
+             # the files of a group may live in different directories (explicit-list merges only)
+             'subdirs': self.cfg['prop'] in ('C09', 'C10', 'C08') and rng.random() < 0.25}
         self.groups[gid] = g
         self.used_ids[gid] = []
         return gid
@@ -353,6 +364,8 @@ class Gen:
             opt = [f for f in G.optional_fields(fs) if f != 'flight_id']
             p_un = rng.choice([0.5, 0.5, 1.0])      # sometimes nothing optional is set at all
             spec['unset'] = [f for f in opt if rng.random() < p_un]
+        if 'vx_d' in fs:
+            spec['keep_default'] = [f for f in ('d_f32', 'd_f64', 'd_i32') if rng.random() < 0.5]
         return spec
 
     # ---- op generation
@@ -393,7 +406,7 @@ class Gen:
             cands += [('iter_live', w.get('iter_live', 0)),
                       ('get', w['get']), ('iter', w['iter']), ('len', w['len']),
                       ('lookup', w['lookup']), ('close', w['close']), ('get_oob', w['get_oob'])]
-            if any(s.kind in ('create', 'append') for s in open_sessions):
+            if any(s.kind in ('create', 'append', 'mem') for s in open_sessions):
                 cands.append(('sync', w['sync']))
             if any(s.kind == 'mem' and s.mem_rows for s in open_sessions):
                 cands.append(('save', w['save']))
@@ -529,7 +542,7 @@ class Gen:
         return {'op': 'lookup', 'sess': sess.sid, 'fid': fid}
 
     def g_sync(self):
-        ss = [s for s in self.sim.sessions.values() if s.kind in ('create', 'append')]
+        ss = [s for s in self.sim.sessions.values() if s.kind in ('create', 'append', 'mem')]
         return {'op': 'sync', 'sess': self.rng.choice(ss).sid}
 
     def g_close(self):
@@ -742,8 +755,9 @@ class Gen:
         self.nmerged += 1
         op = {'op': 'merge', 'out': f'm{self.nmerged}.aeic-store', 'inputs': [f.name for f in chosen]}
         # numbered pattern when the chosen files are consecutive members of the group
-        idxs = [int(f.name.split('_')[1].split('.')[0]) for f in chosen]
-        if idxs == list(range(idxs[0], idxs[0] + len(idxs))) and rng.random() < 0.5:
+        idxs = [int(os.path.basename(f.name).split('_')[1].split('.')[0]) for f in chosen]
+        if idxs == list(range(idxs[0], idxs[0] + len(idxs))) and rng.random() < 0.5 \
+                and not self.groups[gid].get('subdirs'):
             op['pattern'] = {'pattern': f'g{gid}_{{index}}.nc', 'lo': idxs[0], 'hi': idxs[-1]}
         return op
 
